@@ -517,6 +517,9 @@ class Interp:
             if isinstance(val, (tuple, list)) and len(val) == len(target.elts):
                 for t, v in zip(target.elts, val):
                     self._assign(t, v, env)
+            elif isinstance(val, list) and not any(isinstance(t, ast.Starred) for t in target.elts) and all(isinstance(x, (str, bytes, int)) for x in val):
+                # a concrete list of scalars (the result of str.split) of another length: Python raises ValueError at the unpacking
+                raise Crash('%s = <%d values> raises ValueError (%s)' % (unparse(target), len(val), loc(target)))
             else:
                 for t in target.elts:
                     self._assign(t, Opaque(), env)
@@ -596,6 +599,16 @@ class Interp:
                         raise
                     if handled is not None:
                         return [], [e]
+                if nm == 'setattr' and isinstance(fn, ast.Name) and len(v.args) == 3 and not v.keywords:
+                    try:
+                        an = self.value(v.args[1], e)
+                    except Unknown:
+                        an = None
+                    if isinstance(an, str) and an.isidentifier():
+                        tgt = ast.copy_location(ast.Attribute(value=v.args[0], attr=an, ctx=ast.Store()), v)
+                        fake = ast.copy_location(ast.Assign(targets=[tgt], value=v.args[2]), st)
+                        ast.fix_missing_locations(fake)
+                        return self._stmt(fake, e)
                 if nm not in self.effect_names and self.resolver is not None and self.depth < 3:
                     callee = self.resolver(v)
                     if callee is not None:
